@@ -1,23 +1,25 @@
 #!/bin/bash
 # runs every quick (or $1=thorough) check on the current tree, in parallel batches, and validates the evidence files
 TIER=${1:-quick}
-cd /verif
+HERE=$(cd "$(dirname "$0")/.." && pwd)
+cd $HERE
+TAG=${VERIF_SEED:-1}_$$
 python3 check.py setup > /dev/null 2>&1 || { echo "setup failed"; exit 1; }
-rm -f /tmp/runall_*.log
+rm -f /tmp/runall_${TAG}_*.log
 for P in C01 C02 C03 C04 C05 C06 C07 C08 C09 C10 C11 C12 C13 C14 C15 C16 C17 C18 C19; do
-  ( /usr/bin/time -f "%e s" python3 check.py $P --tier $TIER > /tmp/runall_$P.log 2>&1; echo "rc=$?" >> /tmp/runall_$P.log ) &
+  ( /usr/bin/time -f "%e s" python3 check.py $P --tier $TIER > /tmp/runall_${TAG}_$P.log 2>&1; echo "rc=$?" >> /tmp/runall_${TAG}_$P.log ) &
   # at most 6 at a time
   while [ $(jobs -r | wc -l) -ge 6 ]; do sleep 1; done
 done
 wait
 for P in C01 C02 C03 C04 C05 C06 C07 C08 C09 C10 C11 C12 C13 C14 C15 C16 C17 C18 C19; do
-  echo "$P $(grep -E '^rc=' /tmp/runall_$P.log) $(grep -E ' s$' /tmp/runall_$P.log | tail -1) $(grep -c VIOLATION /tmp/runall_$P.log) violations"
+  echo "$P $(grep -E '^rc=' /tmp/runall_${TAG}_$P.log) $(grep -E ' s$' /tmp/runall_${TAG}_$P.log | tail -1) $(grep -c VIOLATION /tmp/runall_${TAG}_$P.log) violations"
 done
-python3-vt - <<'PY'
-import json, jsonschema, glob
+HERE_DIR=$HERE python3-vt - <<'PY'
+import json, jsonschema, glob, os
 s = json.load(open('/root/.vp/EVIDENCE.schema.json'))
 bad = 0
-for f in sorted(glob.glob('/verif/evidence/*.json')):
+for f in sorted(glob.glob(os.path.join(os.environ.get('HERE_DIR','/verif'),'evidence/*.json'))):
     d = json.load(open(f))
     try:
         jsonschema.validate(d, s)
